@@ -20,8 +20,10 @@ def module_src(k, deps, with_owned, with_globals, scalar_only=()):
     scal = []
     for j, dep in enumerate(deps):
         if dep in scalar_only:
-            L.append('load("%s.star", n%d="n", t%d="t", fl%d="fl")' % (dep, j, j, j))
-            scal.append(j)
+            # k-dependent choice of which scalar-looking exports are loaded (often the big integer alone)
+            which = [["n"], ["n"], ["t"], ["fl"], ["n", "fl"], ["n", "t", "fl"]][(k * 7 + j) % 6]
+            L.append('load("%s.star", %s)' % (dep, ", ".join('%s%d="%s"' % (w, j, w) for w in which)))
+            scal += ["%s%d" % (w, j) for w in which]
         else:
             L.append('load("%s.star", a%d="v", b%d="c", g%d="f", h%d="s")' % (dep, j, j, j, j))
             names.append(j)
@@ -29,7 +31,7 @@ def module_src(k, deps, with_owned, with_globals, scalar_only=()):
     L.append('t = "text-%d-" * 5' % k)
     L.append("fl = %d.5" % (k * 1000003))
     L.append('v = [%d, "s%d" * 3, {"k": %d}, (%d, [%d])]' % (k, k, k, k, k))
-    parts = ["v", "n"] + ["a%d" % j for j in names] + ["b%d" % j for j in names] + ["n%d" % j for j in scal] + ["t%d" % j for j in scal] + ["fl%d" % j for j in scal]
+    parts = ["v", "n"] + ["a%d" % j for j in names] + ["b%d" % j for j in names] + scal
     if with_owned:
         parts += ["OW0"]
     if with_globals:
